@@ -7,6 +7,7 @@ package c17
 import (
 	"bytes"
 	"fmt"
+	"unicode/utf8"
 
 	"go.lstv.dev/util/date"
 	"go.lstv.dev/util/internal/vsim/core"
@@ -36,7 +37,7 @@ const (
 	RJSON          // size JSON forms
 )
 
-var preReleases = [...]string{"", "alpha", "alpha.1", "0.3.7", "x.7.z.92", "rc-1", "beta.11", "a-b.c-d", "1", "-"}
+var preReleases = [...]string{"", "alpha", "alpha.1", "0.3.7", "x.7.z.92", "rc-1", "beta.11", "a-b.c-d", "1", "-", "dev.07fa21c", "0a", "00x.1", "0-0", "rc.0", "9.09a"}
 var builds = [...]string{"", "001", "20130313144700", "exp.sha.5114f85", "21AF26D3--117B344092BD", "b"}
 var bigNums = [...]uint64{0, 1, 2, 9, 10, 11, 99, 1000, 65535, 4294967296, 9223372036854775807, 18446744073709551615}
 
@@ -237,10 +238,11 @@ const (
 	FSpace
 	FRune
 	FSepSwap
+	FEdge
 	NumFaults
 )
 
-var faultNames = [...]string{"intact", "truncate", "bitflip", "bytesub", "insert", "delete", "doubled", "pad-over-limit", "empty", "foreign", "caseflip", "space", "rune", "separators-swapped"}
+var faultNames = [...]string{"intact", "truncate", "bitflip", "bytesub", "insert", "delete", "doubled", "pad-over-limit", "empty", "foreign", "caseflip", "space", "rune", "separators-swapped", "range-edge-neighbour"}
 
 var interesting = [...]byte{'0', '9', '-', '.', '+', 'v', 'a', 'Z', ' ', '_', '/', ':', 0xa0, 0xc3, 0x00, 0xff, '"', '{', '}', ':', ',', 'M', 'i', 'B', 'k', '\n', 'e', 'E', 'x'}
 
@@ -315,6 +317,18 @@ func applyFault(t *core.Tape, f int, rec []byte, foreign func() []byte) []byte {
 		// separators, format characters: what %q, strconv.Quote and range loops treat specially)
 		r := runes[t.Choose(len(runes))]
 		i := t.Choose(n + 1)
+		if n > 0 && t.Bool(1, 3) {
+			// a code point whose low byte is a byte of the record itself (Ř is U+0158, 0x58 is X):
+			// whoever narrows runes to bytes sees the record's own alphabet again
+			j := t.Choose(n)
+			if c := b[j]; c < 0x80 {
+				r = string(rune(0x100*(1+t.Choose(32)) + int(c)))
+				if !utf8.ValidString(r) {
+					r = string(rune(0x100 + int(c)))
+				}
+				i = j
+			}
+		}
 		out := append([]byte(nil), b[:i]...)
 		out = append(out, r...)
 		switch t.Choose(3) {
@@ -330,6 +344,41 @@ func applyFault(t *core.Tape, f int, rec []byte, foreign func() []byte) []byte {
 			}
 		}
 		return append(out, b[i:]...)
+	case FEdge:
+		// one byte becomes the character just outside the class it belongs to ('0'..'9' -> '/' or
+		// ':', 'a'..'f' -> '`' or 'g', 'A'..'F' -> '@' or 'G', other letters likewise): what an
+		// off-by-one range test, a table one entry short or an arithmetic class test lets through.
+		// The first and the last byte are favoured (that is where loads and loops end).
+		if n == 0 {
+			return b
+		}
+		i := t.Choose(n)
+		switch t.Choose(3) {
+		case 0:
+			i = n - 1
+		case 1:
+			i = 0
+		}
+		lo := t.Bool(1, 2)
+		c := b[i]
+		switch {
+		case c >= '0' && c <= '9':
+			c = map[bool]byte{true: '/', false: ':'}[lo]
+		case c >= 'a' && c <= 'f':
+			c = map[bool]byte{true: '`', false: 'g'}[lo]
+		case c >= 'A' && c <= 'F':
+			c = map[bool]byte{true: '@', false: 'G'}[lo]
+		case c >= 'a' && c <= 'z':
+			c = map[bool]byte{true: '`', false: '{'}[lo]
+		case c >= 'A' && c <= 'Z':
+			c = map[bool]byte{true: '@', false: '['}[lo]
+		case lo:
+			c--
+		default:
+			c++
+		}
+		b[i] = c
+		return b
 	case FSepSwap:
 		// another writer's convention: every occurrence of one punctuation byte of the record
 		// becomes another one (2024-02-03 -> 2024/02/03, 1.2.3-rc.1 -> 1_2_3-rc_1, ...)
